@@ -125,22 +125,20 @@ func main() {
 	}
 
 	pairs := 0
-	runJobs("pair", func(out chan<- job) {
-		r := c.Rand("pair-patterns")
-		pairCases(5, c.Thorough(), r, func(geom string, ops []Op) {
-			pairs++
-			if pairs <= 3 {
-				c.Sample(map[string]interface{}{"kind": "append-pair", "geometry": geom, "ops": ops})
-			}
-			out <- job{id: pairs, geom: geom, ops: ops}
+	if os.Getenv("C16_SKIP_PAIRS") == "" { // developer aid
+		runJobs("pair", func(out chan<- job) {
+			r := c.Rand("pair-patterns")
+			pairCases(5, c.Thorough(), r, func(geom string, ops []Op) {
+				pairs++
+				if pairs <= 3 {
+					c.Sample(map[string]interface{}{"kind": "append-pair", "geometry": geom, "ops": ops})
+				}
+				out <- job{id: pairs, geom: geom, ops: ops}
+			})
 		})
-	})
+	}
 	c.Count("wal_pair_cases", pairs)
 	phase("pairs")
-	if os.Getenv("C16_PROF") != "" {
-		pprof.StopCPUProfile()
-		os.Exit(0)
-	}
 
 	// ---- 1b. random histories
 	nh, nops := c.Pick(36, 400), c.Pick(150, 300)
@@ -175,7 +173,7 @@ func main() {
 	// ---- 2. membership
 	mtotal := newMbrStats()
 	var cfgs []mbrCfg
-	enumCfgs(5, c.Thorough(), func(cfg mbrCfg) { cfgs = append(cfgs, cfg) })
+	enumCfgs(5, true, func(cfg mbrCfg) { cfgs = append(cfgs, cfg) })
 	cfgCh := make(chan mbrCfg, 64)
 	var wg sync.WaitGroup
 	for w := 0; w < workers; w++ {
@@ -246,6 +244,7 @@ func main() {
 	}
 	c.Set("removed_block_lookup_rule", "GetRaftEntryOfBlock(hash of a block whose entry was overwritten/cleared) must be an error or an entry that does not carry that block; observed outcomes are counted in wal_removed_block_lookup_*")
 
+	pprof.StopCPUProfile()
 	c.Finish("every restart after every op reproduces the reference log (entries, absent indices, last index, inverse map, blocks, hard state, snapshot, identity, ReadAll); every crash state inside an append is old-or-new; every membership request decided per the rule table",
 		c.Pick(5000, 50000),
 		"restart = Close + new ChainDB on the same directory (memorydb persists on Close); crash states = store content after each durable unit of an append, on memorydb semantics (units atomic)",
